@@ -31,6 +31,7 @@ type PropConfig struct {
 	Bounded []struct {
 		Label string     `json:"label"`
 		Rule  replayRule `json:"rule"`
+		Quick bool       `json:"quick"` // cheap enough to run in the quick tier too (still labelled bounded)
 	} `json:"bounded"`
 }
 
@@ -675,8 +676,12 @@ func report(root, prop, tier string, seed int, cfg *PropConfig, runs []*unitRun,
 	}
 	// thorough tier: bounded stand-ins (labelled bounded, never counted as proved)
 	boundedNotes := []string{}
-	if tier == "thorough" {
+	{
 		for _, b := range cfg.Bounded {
+			if tier != "thorough" && !b.Quick {
+				boundedNotes = append(boundedNotes, "BOUNDED "+b.Label+": thorough tier only, not run")
+				continue
+			}
 			run := runReplay(root, b.Rule, nil, ReplayInstance{})
 			switch {
 			case run == nil:
@@ -694,10 +699,6 @@ func report(root, prop, tier string, seed int, cfg *PropConfig, runs []*unitRun,
 			default:
 				boundedNotes = append(boundedNotes, "BOUNDED "+b.Label+": no failing input up to the bound ("+firstLineWith(run.Output, "BOUNDED-OK")+")")
 			}
-		}
-	} else {
-		for _, b := range cfg.Bounded {
-			boundedNotes = append(boundedNotes, "BOUNDED "+b.Label+": thorough tier only, not run")
 		}
 	}
 	// evidence
